@@ -104,17 +104,28 @@ class EngineBase:
             status = 'discharged'
             backend = 'simplifier'
         else:
+            allh = list(self.background) + list(st.pc) + list(st.guards)
+            r = z3.unknown
+            if len(allh) > 40:
+                # small query first: only hypotheses sharing an uninterpreted symbol with the goal (sound: a subset); `unsat` is definitive
+                s1 = self._solver(min(1200, self.timeout_ms))
+                s1.add(*self.relevant(allh, goal, 1))
+                s1.add(z3.Not(goal))
+                if s1.check() == z3.unsat:
+                    r = z3.unsat
+                    backend = 'z3(relevance-1)'
             s = self._solver()
             s.add(*self.background)
             s.add(*st.pc)
             s.add(*st.guards)
             s.add(z3.Not(goal))
-            r = s.check()
+            if r != z3.unsat:
+                r = s.check()
             if r == z3.unknown:
                 # relevance filtering: retry with only the hypotheses connected to the goal through shared
                 # uninterpreted symbols (sound: a subset of the hypotheses); widening radius
-                for depth in (1, 2, 3):
-                    hyps = self.relevant(list(self.background) + list(st.pc) + list(st.guards), goal, depth)
+                for depth in (2, 3):
+                    hyps = self.relevant(allh, goal, depth)
                     s2 = self._solver(max(3000, self.timeout_ms // 2))
                     s2.add(*hyps)
                     s2.add(z3.Not(goal))
